@@ -15,7 +15,8 @@ from checks.c04 import jsonish
 PROP = "C18"
 MAX_STEPS = 80
 
-RAISES = ("app-error", "app-error-kwargs", "decorated", "defined", "undefined", "picky", "kwonly", "with-kwargs-attr", "app-error-noargs")
+RAISES = ("app-error", "app-error-kwargs", "decorated", "defined", "undefined", "picky", "kwonly", "with-kwargs-attr", "app-error-noargs",
+          "on-cancel")
 
 
 class DefinedError(Exception):
@@ -84,6 +85,7 @@ class World(DuoWorld):
         self.calls = []
         self.by_tok = {}
         self.pending_forward = []  # ERRORs from the callee not yet forwarded to the caller
+        self.interruptible = []  # invocations whose endpoint is pending and fails with its own error when cancelled
         self.ops_left = 0
 
     def build(self):
@@ -182,7 +184,27 @@ class World(DuoWorld):
             raise KwOnlyError(code=7)
         if k == "with-kwargs-attr":
             raise WithKwargs(*a, info="i")
+        if k == "on-cancel":
+            return self.cancel_aware(rec)
         raise RuntimeError(k)
+
+    def cancel_aware(self, rec):
+        """A pending endpoint that turns its cancellation (dealer INTERRUPT) into an application error of its own."""
+        from autobahn.wamp.exception import ApplicationError
+        make = lambda: ApplicationError("com.example.carried.%s.cancelled" % rec.tok, *rec.args, reason="cancelled")  # noqa
+        self.interruptible.append(rec)
+        if self.fwname == "tx":
+            from twisted.internet import defer
+            return defer.Deferred(canceller=lambda d: d.errback(make()))
+        import asyncio
+        f = self.fw.new_future(self)
+
+        async def co():
+            try:
+                return await f
+            except asyncio.CancelledError:
+                raise make()
+        return co()
 
     def expected_error(self, rec):
         """(uri, args, kwargs) the callee must put on the wire."""
@@ -195,6 +217,8 @@ class World(DuoWorld):
             return "com.example.carried.%s" % rec.tok, a, {"reason": "why", "n": 3}
         if k == "app-error-noargs":
             return "com.example.defined", [], {}
+        if k == "on-cancel":
+            return "com.example.carried.%s.cancelled" % rec.tok, a, {"reason": "cancelled"}
         cls, args, kw = {"decorated": (Dec, a, {}), "defined": (DefinedError, a, {}), "undefined": (UndefinedError, a, {}),
                          "picky": (PickyError, ["p", "q"], {}), "kwonly": (KwOnlyError, [], {"code": 7}),
                          "with-kwargs-attr": (WithKwargs, a, {"info": "i"})}[k]
@@ -212,7 +236,20 @@ class World(DuoWorld):
             acts.append((4.0, "collect-error", self.collect_error))
         if self.pending_forward:
             acts.append((3.0, "forward-error", self.forward_error))
+        if [r for r in self.interruptible if r.inv_id is not None]:
+            acts.append((3.0, "interrupt", self.interrupt))
         return acts
+
+    def interrupt(self):
+        """the dealer cancels an invocation in flight"""
+        cands = [r for r in self.interruptible if r.inv_id is not None]
+        rec = cands[self.run.ch.choose(len(cands), "which-interrupt")]
+        self.interruptible.remove(rec)
+        self.run.fault("interrupt")
+        err = self.deliver_to(self.callee, self.M.Interrupt(rec.inv_id, mode=self.run.ch.pick((None, "kill", "killnowait"), "mode")))
+        self.settle()
+        if err is not None:
+            self.run.violate("C18.own-call", "interrupt-raised:%s" % type(err).__name__, repr(err))
 
     def do_call(self):
         ch = self.run.ch
@@ -351,6 +388,8 @@ class World(DuoWorld):
             self.settle()
             if self.unread(self.caller):
                 self.route_call()
+            elif [r for r in self.interruptible if r.inv_id is not None]:
+                self.interrupt()
             elif self.unread(self.callee):
                 self.collect_error()
             elif self.pending_forward:
